@@ -268,6 +268,9 @@ def run(ctx):
                             continue
                         judge(ctx, pool, form, ops, "scalar")
     helpers(ctx, pool, rng, 40 if not thorough else 800)
+    from .c13 import realistic_stage
+
+    realistic_stage(ctx, thorough)
     ctx.sample({"form": "sub", "operands": ["li", "I[2, 3]"], "meaning": "element i = 5 - A[i]"})
     marray.uninstall()
 
